@@ -38,6 +38,7 @@ type call struct {
 	pre     []func(c *conn, h *hooks) error // conforming calls made first by the same goroutine
 	run     func(c *conn, h *hooks) string
 	isClose bool
+	delay   time.Duration // virtual time the caller lets pass between the prelude and the call
 }
 
 // api is one (protocol, API call) configuration: how the connection is set up, the
@@ -45,6 +46,7 @@ type call struct {
 type api struct {
 	proto, label string
 	ntn, server  bool
+	duplex       bool // full-duplex NtN connection (client role, the peer advertises initiator-and-responder)
 	pid          uint16
 	opts         func(h *hooks) []ouroboros.ConnectionOptionFunc
 	start        func(c *conn)
@@ -473,6 +475,90 @@ func txsAPIs() []*api {
 	return []*api{ids, txs}
 }
 
+// ---- dedicated scenarios ----------------------------------------------------------------
+
+// leadAPIs examines muxer.readLoop's silent return (`if recvChan.ch == nil { ...; return }`):
+// a full-duplex NtN connection with a tx-submission server whose blocking RequestTxIds is
+// pending (that state has no timeout) while the chain-sync client is stopped; a conforming
+// server's next chain-sync message (AwaitReply / RollForward) is on the wire at the moment the
+// protocol is unregistered.
+func leadAPIs() []*api {
+	cs, tx := chainsync.ProtocolIdNtN, txsubmission.ProtocolId
+	txOpts := txsAPIs()[0].opts
+	waitInit := txsAPIs()[0].calls[0].pre[0]
+	var out []*api
+	for _, d := range []time.Duration{250 * time.Millisecond, 252 * time.Millisecond, 254 * time.Millisecond} {
+		sp := &api{proto: "muxer", label: fmt.Sprintf("RequestTxIdsWhileChainSyncStops@%dms", d.Milliseconds()), ntn: true, duplex: true, pid: cs,
+			opts: func(h *hooks) []ouroboros.ConnectionOptionFunc { return append(csOpts(h), txOpts(h)...) },
+			start: func(c *conn) {
+				c.ChainSync().Client.Start()
+				c.TxSubmission().Server.Start()
+			},
+			peerPre: []peerStep{
+				{pid: tx, send: [][]byte{enc(txsubmission.NewMsgInit())}, init: true},
+				{pid: tx, wait: 1},
+				{pid: cs, wait: 1, send: [][]byte{enc(chainsync.NewMsgIntersectFound(pointLo, tipHi))}},
+			},
+			reqs: 1, delay: d, maxLen: 1, bound: 1, boundLen: 1,
+			letters: []letter{
+				msg(cs, "AwaitReply", chainsync.NewMsgAwaitReply()),
+				rawMsg(cs, "RollForward", fxRollForwardNtN),
+			},
+			maxTimeout: chainsync.IdleTimeout,
+		}
+		sp.calls = []call{
+			{name: "RequestTxIds", pre: []func(*conn, *hooks) error{waitInit}, run: func(c *conn, h *hooks) string {
+				r, err := c.TxSubmission().Server.RequestTxIds(true, 3)
+				if err == nil {
+					return fmt.Sprintf("ok %d ids", len(r))
+				}
+				return res(err)
+			}},
+			{name: "Stop", pre: []func(*conn, *hooks) error{func(c *conn, h *hooks) error {
+				return c.ChainSync().Client.Sync([]pcommon.Point{pointLo})
+			}}, run: func(c *conn, h *hooks) string { return res(c.ChainSync().Client.Stop()) }},
+		}
+		out = append(out, sp)
+	}
+	return out
+}
+
+// floodAPIs: chain-sync Stop while the server keeps streaming blocks to a client whose
+// RollForward callback is slow (surplus replies pile up in the muxer's 10-slot channel).
+func floodAPIs() []*api {
+	var out []*api
+	for _, ntn := range []bool{false, true} {
+		pid := csPid(ntn)
+		rf := fxRollForwardNtC
+		if ntn {
+			rf = fxRollForwardNtN
+		}
+		sp := &api{proto: "chain-sync", label: "StopWhileServerStreams", ntn: ntn, pid: pid,
+			opts: func(h *hooks) []ouroboros.ConnectionOptionFunc {
+				return []ouroboros.ConnectionOptionFunc{ouroboros.WithChainSyncConfig(chainsync.NewConfig(
+					chainsync.WithRollForwardFunc(func(chainsync.CallbackContext, uint, any, chainsync.Tip) error {
+						vtime.Sleep(10 * time.Second) // a slow application
+						return nil
+					}),
+					chainsync.WithRollBackwardFunc(func(chainsync.CallbackContext, pcommon.Point, chainsync.Tip) error { return nil }),
+				))}
+			},
+			start:   func(c *conn) { c.ChainSync().Client.Start() },
+			peerPre: []peerStep{{pid: pid, wait: 1, send: [][]byte{enc(chainsync.NewMsgIntersectFound(pointLo, tipHi))}}},
+			reqs:    1, maxLen: 1, bound: 1, boundLen: 0,
+			letters: []letter{{label: "RollForward*70", kind: kMsg, pid: pid, data: rf, rep: 70}},
+			maxTimeout: csTimeout(ntn),
+		}
+		sp.calls = []call{{name: "Stop", delay: 5 * time.Millisecond,
+			pre: []func(*conn, *hooks) error{func(c *conn, h *hooks) error {
+				return c.ChainSync().Client.Sync([]pcommon.Point{pointLo})
+			}},
+			run: func(c *conn, h *hooks) string { return res(c.ChainSync().Client.Stop()) }}}
+		out = append(out, sp)
+	}
+	return out
+}
+
 func apis() []*api {
 	var out []*api
 	out = append(out, csAPIs(true)...)
@@ -484,5 +570,7 @@ func apis() []*api {
 	out = append(out, psAPIs()...)
 	out = append(out, kaAPIs()...)
 	out = append(out, txsAPIs()...)
+	out = append(out, leadAPIs()...)
+	out = append(out, floodAPIs()...)
 	return out
 }
